@@ -24,7 +24,7 @@ def gen_job(rng, backend):
     for k in range(n):
         d = sorted(set(rng.randrange(k) for _ in range(rng.randint(0, 2)))) if k else []
         deps.append(d)
-        kind = rng.choice(['leaf', 'sub', 'sub', 'cached'])
+        kind = rng.choice(['leaf', 'sub', 'sub', 'cached', 'count'])
         if kind == 'leaf' and d:
             kind = 'sub'
         kinds.append(kind)
@@ -73,6 +73,8 @@ def expected_context(job, k):
     ctx = {a: b for a, b in job['context']}
     if job['kinds'][k] in ('leaf', 'cached'):
         return ctx
+    if job['kinds'][k] == 'count':
+        return dict(ctx, depth=1)
     return {key: ctx[key] for key in job['keys'][k] if key in ctx}
 
 
@@ -203,7 +205,7 @@ def run(ctx):
         dist['max_workers=%s' % job['mw']] = dist.get('max_workers=%s' % job['mw'], 0) + 1
         for w in monitor(r):
             violations.append(dict(what=w, replay=dict(job=job)))
-        if job['n'] >= 2 or any(k == 'sub' for k in job['kinds']):
+        if job['n'] >= 2 or any(k in ('sub', 'count') for k in job['kinds']):
             nontrivial.add(json.dumps([job['backend'], job['n'], job['deps'], job['kinds'], job['keys'], job['mw']]))
         if r['status'] == 'returned':
             for ks in r['results']:
